@@ -78,8 +78,10 @@ def apply_contract(eng, st, c, args, kw, node, arg_exprs=(), kw_exprs=None, recv
                 raise OutOfSubset(f"{c.qualname}: missing argument {nm}")
             d = c.defaults[nm]
             argmap[nm] = d if isinstance(d, Val) else _const(d)
-        if not isinstance(ty, HeapParam):
+        if ty is not None and not isinstance(ty, HeapParam) and c.custom_apply is None:
             argmap[nm] = eng.coerce(argmap[nm], ty, st)
+    if c.custom_apply is not None:
+        return c.custom_apply(eng, st, c, argmap, exprmap, node)
     pre_heap = {k: v.clone() for k, v in st.heap.items()}
     pre_env = dict(argmap)
     ctx = Ctx(eng, st, argmap)
@@ -395,7 +397,7 @@ def _b_bool(eng, e, st):
 
 def _b_str(eng, e, st):
     v = eng.ev(e.args[0], st)
-    if v.ty == TName:
+    if v.ty == TName or (isinstance(v.ty, TObj) and v.ty.name == "PNode"):
         return v
     return E._StrLit("<str>")
 
